@@ -80,6 +80,17 @@ pub enum AOp {
     Send { s: Ref, t: Ref, part: u32, n: u32 },
     Restart,
     Dump,
+    /// login attempt with a candidate password: 0 current, 1 wrong, 2 a previous one, 3 another user's
+    TryLogin { name: String, cand: u8, http: bool },
+    /// token of any user ever created in this history (alive, deleted, expired, of a deleted/inactive user)
+    TryToken { idx: usize },
+    UserToken { u: Ref, name: String, expiry_s: u64 },
+    DeleteUserToken { u: Ref, name: String },
+    LogoutCheck,
+    HttpAuthCheck,
+    AdvanceClock { s: u64 },
+    CleanTokens,
+    ScanSecrets,
 }
 
 impl AOp {
@@ -109,6 +120,15 @@ impl AOp {
             AOp::Send { .. } => "send",
             AOp::Restart => "restart",
             AOp::Dump => "dump",
+            AOp::TryLogin { .. } => "try_login",
+            AOp::TryToken { .. } => "try_token",
+            AOp::UserToken { .. } => "create_user_token",
+            AOp::DeleteUserToken { .. } => "delete_user_token",
+            AOp::LogoutCheck => "logout_check",
+            AOp::HttpAuthCheck => "http_auth_check",
+            AOp::AdvanceClock { .. } => "advance_clock",
+            AOp::CleanTokens => "clean_tokens",
+            AOp::ScanSecrets => "scan_secrets",
         }
     }
 }
@@ -146,6 +166,19 @@ pub struct MUser {
     pub active: bool,
     pub perms: u8,
     pub password: String,
+    pub previous: Vec<String>,
+}
+
+/// every personal access token ever created in the history
+#[derive(Clone, Debug)]
+pub struct TokRec {
+    pub owner: u32,
+    pub name: String,
+    pub raw: String,
+    /// server clock (micros) bracket at creation
+    pub created_us: u64,
+    pub expiry_s: u64,
+    pub deleted: bool,
 }
 
 #[derive(Clone, Debug, Default)]
@@ -154,6 +187,8 @@ pub struct Model {
     pub users: BTreeMap<u32, MUser>,
     /// root's tokens: name -> (raw token, expiry seconds 0 = never)
     pub tokens: BTreeMap<String, (String, u64)>,
+    pub toks: Vec<TokRec>,
+    pub secrets: Vec<String>,
 }
 
 pub fn perms_of(code: u8) -> Option<Permissions> {
@@ -215,7 +250,7 @@ fn maxsize_of(b: u64) -> MaxTopicSize {
 impl AdminWorld {
     pub fn new(hist: u64, cfg: StorageCfg, cache: CacheMode, dir: PathBuf) -> AdminWorld {
         let mut m = Model::default();
-        m.users.insert(1, MUser { id: 1, name: "iggy".into(), active: true, perms: 255, password: "iggy".into() });
+        m.users.insert(1, MUser { id: 1, name: "iggy".into(), active: true, perms: 255, password: "iggy".into(), previous: vec![] });
         AdminWorld {
             hist,
             with_http: cfg.http,
@@ -265,14 +300,16 @@ impl AdminWorld {
         self.client_ids.clear();
         for _ in 0..N_CLIENTS {
             let c = RawClient::connect(inst.tcp_addr).await.map_err(Stop::Inconclusive)?;
-            timed("login", c.login_user("iggy", "iggy")).await?.map_err(|e| Stop::Inconclusive(format!("login: {e}")))?;
+            let root_pw = self.m.users[&1].password.clone();
+            timed("login", c.login_user("iggy", &root_pw)).await?.map_err(|e| Stop::Inconclusive(format!("login: {e}")))?;
             let me = timed("get_me", c.get_me()).await?.map_err(|e| Stop::Inconclusive(format!("get_me: {e}")))?;
             self.client_ids.push(me.client_id);
             self.tcp.push(c);
         }
         if let Some(addr) = inst.http_addr {
             let h = HttpClient::create(Arc::new(HttpClientConfig { api_url: format!("http://{addr}"), retries: 0 })).map_err(|e| Stop::Inconclusive(format!("http: {e}")))?;
-            timed("http login", h.login_user("iggy", "iggy")).await?.map_err(|e| Stop::Inconclusive(format!("http login: {e}")))?;
+            let root_pw = self.m.users[&1].password.clone();
+            timed("http login", h.login_user("iggy", &root_pw)).await?.map_err(|e| Stop::Inconclusive(format!("http login: {e}")))?;
             self.http = Some(h);
         }
         self.inst = Some(inst);
@@ -699,7 +736,8 @@ impl AdminWorld {
                         let w = json!({"create_user": name, "returned_id": u.id, "ids_in_use": self.m.users.keys().collect::<Vec<_>>()});
                         return Err(viol("C06", "assigned-id-fresh", "user", self.witness(w)));
                     }
-                    self.m.users.insert(u.id, MUser { id: u.id, name, active, perms, password: pw });
+                    self.m.secrets.push(pw.clone());
+                    self.m.users.insert(u.id, MUser { id: u.id, name, active, perms, password: pw, previous: vec![] });
                     self.event("server_assigned_id");
                     self.shape.push("create_user");
                 }
@@ -743,7 +781,11 @@ impl AdminWorld {
                 self.outcome("delete_user", ok, &res, why)?;
                 if res.is_ok() {
                     self.m.users.remove(&uid.unwrap());
+                    for t in self.m.toks.iter_mut().filter(|t| Some(t.owner) == uid) {
+                        t.deleted = true;
+                    }
                     self.event("entity_deleted");
+                    self.event("user_deleted");
                     self.shape.push("delete_user");
                 }
                 Ok(())
@@ -781,28 +823,48 @@ impl AdminWorld {
                 }
                 self.outcome("change_password", ok, &res, "existing user, correct current password")?;
                 if res.is_ok() {
-                    self.m.users.get_mut(&uid.unwrap()).unwrap().password = newpw;
+                    self.m.secrets.push(newpw.clone());
+                    let um = self.m.users.get_mut(&uid.unwrap()).unwrap();
+                    let old = std::mem::replace(&mut um.password, newpw);
+                    um.previous.push(old);
+                    self.event("password_changed");
                     self.shape.push("change_password");
                 }
                 Ok(())
             }
             AOp::CreateToken { name, expiry_s } => {
-                let taken = self.m.tokens.contains_key(&name);
+                let taken = self.m.toks.iter().any(|t| t.owner == 1 && t.name == name && !t.deleted);
+                let stale = self.m.toks.iter().any(|t| t.owner == 1 && t.name == name && !t.deleted && self.token_unexpired(t) != Some(true));
                 let exp = if expiry_s == 0 { PersonalAccessTokenExpiry::NeverExpire } else { PersonalAccessTokenExpiry::ExpireDuration(IggyDuration::from(expiry_s * 1_000_000)) };
                 let res = timed("create_token", self.cl(http).create_personal_access_token(&name, exp)).await?;
-                self.outcome("create_personal_access_token", !taken, &res, "fresh token name")?;
+                if !stale {
+                    self.outcome("create_personal_access_token", !taken, &res, "fresh token name")?;
+                }
                 if let Ok(raw) = res {
+                    for t in self.m.toks.iter_mut().filter(|t| t.owner == 1 && t.name == name) {
+                        t.deleted = true;
+                    }
+                    let now = iggy::utils::timestamp::IggyTimestamp::now().as_micros();
+                    self.m.secrets.push(raw.token.clone());
+                    self.m.toks.push(TokRec { owner: 1, name: name.clone(), raw: raw.token.clone(), created_us: now, expiry_s, deleted: false });
                     self.m.tokens.insert(name, (raw.token, expiry_s));
                     self.shape.push("create_token");
                 }
                 Ok(())
             }
             AOp::DeleteToken { name } => {
-                let exists = self.m.tokens.contains_key(&name);
+                let exists = self.m.toks.iter().any(|t| t.owner == 1 && t.name == name && !t.deleted);
+                let stale = self.m.toks.iter().any(|t| t.owner == 1 && t.name == name && !t.deleted && self.token_unexpired(t) != Some(true));
                 let res = timed("delete_token", self.cl(http).delete_personal_access_token(&name)).await?;
-                self.outcome("delete_personal_access_token", exists, &res, "existing token")?;
+                if !stale {
+                    self.outcome("delete_personal_access_token", exists, &res, "existing token")?;
+                }
                 if res.is_ok() {
                     self.m.tokens.remove(&name);
+                    for t in self.m.toks.iter_mut().filter(|t| t.owner == 1 && t.name == name && !t.deleted) {
+                        t.deleted = true;
+                    }
+                    self.event("token_deleted");
                     self.shape.push("delete_token");
                 }
                 Ok(())
@@ -833,7 +895,282 @@ impl AdminWorld {
             }
             AOp::Dump => self.dump_and_compare("dump", true).await,
             AOp::Restart => self.restart().await,
+            AOp::TryLogin { name, cand, http } => self.try_login(&name, cand, http).await,
+            AOp::TryToken { idx } => self.try_token(idx).await,
+            AOp::UserToken { u, name, expiry_s } => self.user_token(&u, &name, expiry_s, true).await,
+            AOp::DeleteUserToken { u, name } => self.user_token(&u, &name, 0, false).await,
+            AOp::LogoutCheck => self.logout_check().await,
+            AOp::HttpAuthCheck => self.http_auth_check().await,
+            AOp::AdvanceClock { s } => {
+                iggy::utils::timestamp::verif_clock::advance_micros(s * 1_000_000);
+                self.event("clock_advanced");
+                Ok(())
+            }
+            AOp::CleanTokens => {
+                let r = timed("clean_tokens", self.inst.as_ref().unwrap().clean_tokens()).await?;
+                r.map_err(Stop::Inconclusive)?;
+                self.event("token_cleaner_pass");
+                self.shape.push("clean_tokens");
+                Ok(())
+            }
+            AOp::ScanSecrets => self.scan_secrets("scan"),
         }
+    }
+
+    /// is the token alive at the server's current (virtual) time?  None = too close to the boundary to call
+    fn token_state(&self, t: &TokRec) -> Option<bool> {
+        if t.deleted {
+            return Some(false);
+        }
+        let owner = self.m.users.get(&t.owner);
+        let Some(owner) = owner else { return Some(false) };
+        if !owner.active {
+            return Some(false);
+        }
+        if t.expiry_s == 0 {
+            return Some(true);
+        }
+        let now = iggy::utils::timestamp::IggyTimestamp::now().as_micros();
+        let exp = t.created_us + t.expiry_s * 1_000_000;
+        if now + 2_000_000 < exp {
+            Some(true)
+        } else if now > exp + 2_000_000 {
+            Some(false)
+        } else {
+            None
+        }
+    }
+
+    /// Some(true) = certainly not expired, Some(false) = certainly expired, None = near the boundary
+    fn token_unexpired(&self, t: &TokRec) -> Option<bool> {
+        if t.expiry_s == 0 {
+            return Some(true);
+        }
+        let now = iggy::utils::timestamp::IggyTimestamp::now().as_micros();
+        let exp = t.created_us + t.expiry_s * 1_000_000;
+        if now + 2_000_000 < exp {
+            Some(true)
+        } else if now > exp + 2_000_000 {
+            Some(false)
+        } else {
+            None
+        }
+    }
+
+    async fn try_login(&mut self, name: &str, cand: u8, http: bool) -> R<()> {
+        let user = self.m.users.values().find(|u| u.name == name).cloned();
+        let other_pw = self.m.users.values().find(|u| u.name != name && u.id != 1).map(|u| u.password.clone());
+        let (pw, label) = match (cand, &user) {
+            (0, Some(u)) => (u.password.clone(), "current"),
+            (2, Some(u)) if !u.previous.is_empty() => (u.previous[u.previous.len() - 1].clone(), "previous"),
+            (3, _) if other_pw.is_some() => (other_pw.unwrap(), "other-users"),
+            (0, None) => (format!("pw-{}-{}", name, self.hist & 0xffff), "of-unknown-or-deleted-user"),
+            _ => ("definitely-wrong-pw".to_string(), "wrong"),
+        };
+        let same_as_current = user.as_ref().map(|u| u.password == pw).unwrap_or(false);
+        let expect = user.as_ref().map(|u| u.active).unwrap_or(false) && same_as_current;
+        let addr = self.inst.as_ref().unwrap().tcp_addr;
+        let ok = if http && self.with_http && self.inst.as_ref().unwrap().http_addr.is_some() {
+            let a = self.inst.as_ref().unwrap().http_addr.unwrap();
+            let h = HttpClient::create(Arc::new(HttpClientConfig { api_url: format!("http://{a}"), retries: 0 })).map_err(|e| Stop::Inconclusive(e.to_string()))?;
+            timed("http login", h.login_user(name, &pw)).await?.is_ok()
+        } else {
+            let c = RawClient::connect(addr).await.map_err(Stop::Inconclusive)?;
+            let r = timed("login", c.login_user(name, &pw)).await?;
+            if let Ok(idn) = &r {
+                // an accepted login must open exactly that user's session
+                let me = timed("get_me", c.get_me()).await?;
+                if let (Some(u), Ok(me)) = (&user, me) {
+                    if idn.user_id != u.id || me.user_id != Some(u.id) {
+                        let w = json!({"login": name, "returned_user_id": idn.user_id, "session_user_id": me.user_id, "model_id": u.id});
+                        return Err(viol("C10", "login-iff-valid", "wrong-identity", self.witness(w)));
+                    }
+                }
+            }
+            r.is_ok()
+        };
+        self.eval("C10:login-iff-valid");
+        self.event(&format!("login_attempt_{label}"));
+        if ok != expect {
+            let w = json!({"login": name, "candidate": label, "user_exists": user.is_some(), "active": user.as_ref().map(|u| u.active), "server": if ok { "accepted" } else { "refused" }, "http": http});
+            let trig = if ok { format!("accepted/{label}") } else { format!("refused/{label}") };
+            return Err(viol("C10", "login-iff-valid", &trig, self.witness(w)));
+        }
+        self.shape.push(if ok { "login_ok" } else { "login_refused" });
+        Ok(())
+    }
+
+    async fn try_token(&mut self, idx: usize) -> R<()> {
+        if self.m.toks.is_empty() {
+            return Ok(());
+        }
+        let t = self.m.toks[idx % self.m.toks.len()].clone();
+        let Some(expect) = self.token_state(&t) else {
+            self.event("token_login_skipped_near_expiry_boundary");
+            return Ok(());
+        };
+        let addr = self.inst.as_ref().unwrap().tcp_addr;
+        let c = RawClient::connect(addr).await.map_err(Stop::Inconclusive)?;
+        let r = timed("login_pat", c.login_with_personal_access_token(&t.raw)).await?;
+        self.eval("C10:token-iff-valid");
+        let kind = if t.deleted {
+            "deleted-or-owner-deleted"
+        } else if !self.m.users.get(&t.owner).map(|u| u.active).unwrap_or(false) {
+            "owner-inactive"
+        } else if !expect {
+            "expired"
+        } else {
+            "alive"
+        };
+        self.event(&format!("token_login_{kind}"));
+        if r.is_ok() != expect {
+            let w = json!({"token": t.name, "owner": t.owner, "state": kind, "server": if r.is_ok() { "accepted".to_string() } else { format!("refused: {}", r.as_ref().unwrap_err()) }});
+            return Err(viol("C10", "token-iff-valid", &format!("{}/{kind}", if r.is_ok() { "accepted" } else { "refused" }), self.witness(w)));
+        }
+        if let Ok(idn) = r {
+            if idn.user_id != t.owner {
+                let w = json!({"token": t.name, "owner": t.owner, "logged_in_as": idn.user_id});
+                return Err(viol("C10", "token-iff-valid", "wrong-identity", self.witness(w)));
+            }
+        }
+        self.shape.push(if expect { "token_ok" } else { "token_refused" });
+        Ok(())
+    }
+
+    /// create / delete a token as a non-root user (own connection, logged in with the user's password)
+    async fn user_token(&mut self, u: &Ref, name: &str, expiry_s: u64, create: bool) -> R<()> {
+        let Some(uid) = self.user_id(u) else { return Ok(()) };
+        let um = self.m.users[&uid].clone();
+        if !um.active {
+            return Ok(());
+        }
+        let addr = self.inst.as_ref().unwrap().tcp_addr;
+        let c = RawClient::connect(addr).await.map_err(Stop::Inconclusive)?;
+        let r = timed("login", c.login_user(&um.name, &um.password)).await?;
+        if r.is_err() {
+            let w = json!({"login_for_token_op": um.name, "error": r.unwrap_err().to_string()});
+            return Err(viol("C10", "login-iff-valid", "refused/current", self.witness(w)));
+        }
+        let exists = self.m.toks.iter().any(|t| t.owner == uid && t.name == name && !t.deleted);
+        // an expired token may or may not have been removed already (cleaner pass, restart): outcome unconstrained then
+        let stale = self.m.toks.iter().any(|t| t.owner == uid && t.name == name && !t.deleted && self.token_unexpired(t) != Some(true));
+        if create {
+            let exp = if expiry_s == 0 { PersonalAccessTokenExpiry::NeverExpire } else { PersonalAccessTokenExpiry::ExpireDuration(IggyDuration::from(expiry_s * 1_000_000)) };
+            let res = timed("create_token", c.create_personal_access_token(name, exp)).await?;
+            if !stale {
+                self.outcome("create_personal_access_token", !exists, &res, "fresh token name for that user")?;
+            }
+            if let Ok(raw) = res {
+                for t in self.m.toks.iter_mut().filter(|t| t.owner == uid && t.name == name) {
+                    t.deleted = true;
+                }
+                let now = iggy::utils::timestamp::IggyTimestamp::now().as_micros();
+                self.m.secrets.push(raw.token.clone());
+                self.m.toks.push(TokRec { owner: uid, name: name.to_string(), raw: raw.token.clone(), created_us: now, expiry_s, deleted: false });
+                if uid == 1 {
+                    self.m.tokens.insert(name.to_string(), (raw.token, expiry_s));
+                }
+                self.event("non_root_token_created");
+                self.shape.push("user_token");
+            }
+        } else {
+            let res = timed("delete_token", c.delete_personal_access_token(name)).await?;
+            if !stale {
+                self.outcome("delete_personal_access_token", exists, &res, "existing token of that user")?;
+            }
+            if res.is_ok() {
+                for t in self.m.toks.iter_mut().filter(|t| t.owner == uid && t.name == name) {
+                    t.deleted = true;
+                }
+                if uid == 1 {
+                    self.m.tokens.remove(name);
+                }
+                self.event("token_deleted");
+                self.shape.push("user_token_deleted");
+            }
+        }
+        Ok(())
+    }
+
+    /// Logging out de-authenticates the connection.
+    async fn logout_check(&mut self) -> R<()> {
+        let addr = self.inst.as_ref().unwrap().tcp_addr;
+        let c = RawClient::connect(addr).await.map_err(Stop::Inconclusive)?;
+        let root_pw = self.m.users[&1].password.clone();
+        timed("login", c.login_user("iggy", &root_pw)).await?.map_err(|e| Stop::Inconclusive(format!("root login: {e}")))?;
+        let before = timed("get_streams", c.get_streams()).await?;
+        let lo = timed("logout", c.logout_user()).await?;
+        let after = timed("get_streams", c.get_streams()).await?;
+        let after2 = timed("create_stream", c.create_stream("after-logout-stream", Some(77))).await?;
+        self.eval("C10:logout-deauthenticates");
+        self.event("logout_checked");
+        if before.is_err() || lo.is_err() || after.is_ok() || after2.is_ok() {
+            let w = json!({"before_logout": before.is_ok(), "logout": lo.is_ok(), "get_streams_after_logout": after.is_ok(), "create_stream_after_logout": after2.is_ok()});
+            if after2.is_ok() {
+                self.m.streams.insert(77, MStream { id: 77, name: "after-logout-stream".into(), topics: BTreeMap::new() });
+            }
+            return Err(viol("C10", "logout-deauthenticates", "request-after-logout-accepted", self.witness(w)));
+        }
+        self.shape.push("logout");
+        Ok(())
+    }
+
+    /// HTTP: login gives a JWT, logout revokes it.
+    async fn http_auth_check(&mut self) -> R<()> {
+        let Some(a) = self.inst.as_ref().unwrap().http_addr else { return Ok(()) };
+        let h = HttpClient::create(Arc::new(HttpClientConfig { api_url: format!("http://{a}"), retries: 0 })).map_err(|e| Stop::Inconclusive(e.to_string()))?;
+        let root_pw = self.m.users[&1].password.clone();
+        let idn = timed("http login", h.login_user("iggy", &root_pw)).await?.map_err(|e| Stop::Inconclusive(format!("http root login: {e}")))?;
+        let token = idn.access_token.map(|t| t.token).unwrap_or_default();
+        let before = timed("http get_streams", h.get_streams()).await?;
+        let lo = timed("http logout", h.logout_user()).await?;
+        // replay the revoked JWT by hand
+        let url = format!("http://{a}/streams");
+        let resp = timed("raw http", reqwest::Client::new().get(&url).bearer_auth(&token).send()).await?;
+        let status = resp.map(|r| r.status().as_u16()).unwrap_or(0);
+        self.eval("C10:logout-deauthenticates");
+        self.event("http_logout_checked");
+        if before.is_err() || lo.is_err() || status == 200 {
+            let w = json!({"http_before_logout": before.is_ok(), "logout": lo.is_ok(), "revoked_jwt_status": status});
+            return Err(viol("C10", "logout-deauthenticates", "http-revoked-jwt-accepted", self.witness(w)));
+        }
+        if !token.is_empty() {
+            self.m.secrets.push(token);
+        }
+        self.shape.push("http_logout");
+        Ok(())
+    }
+
+    /// No password and no raw token (as bytes, or base64 of them) in any file under the data directory.
+    pub fn scan_secrets(&mut self, why: &str) -> R<()> {
+        use base64::Engine;
+        let mut files = vec![];
+        crate::world::collect_files(&self.dir, &mut files);
+        let mut needles: Vec<(String, Vec<u8>)> = vec![];
+        for sct in &self.m.secrets {
+            if sct.len() < 8 {
+                continue;
+            }
+            needles.push((sct.clone(), sct.as_bytes().to_vec()));
+            needles.push((format!("base64({sct})"), base64::engine::general_purpose::STANDARD.encode(sct.as_bytes()).into_bytes()));
+        }
+        let mut bytes = 0u64;
+        for f in &files {
+            let Ok(data) = std::fs::read(f) else { continue };
+            bytes += data.len() as u64;
+            for (label, n) in &needles {
+                self.eval("C10:no-cleartext-secret");
+                if crate::world::find(&data, n).is_some() {
+                    let short: String = label.chars().take(24).collect();
+                    let w = json!({"why": why, "file": f.to_string_lossy(), "secret": short});
+                    let kind = if label.starts_with("pw-") || label.starts_with("np-") || label.starts_with("base64(pw") || label.starts_with("base64(np") { "password" } else { "token" };
+                    return Err(viol("C10", "no-cleartext-secret", kind, self.witness(w)));
+                }
+            }
+        }
+        *self.ev.entry("secret_scan_files".into()).or_insert(0) += files.len() as u64;
+        *self.ev.entry("secret_scan_bytes".into()).or_insert(0) += bytes;
+        Ok(())
     }
 
     // ------------------------------------------------------------------ observations
@@ -934,7 +1271,16 @@ impl AdminWorld {
             })
             .collect();
         let users: Vec<Value> = self.m.users.values().map(|u| json!({"id": u.id, "name": u.name, "active": u.active, "permissions": if u.id == 1 { json!("root") } else { serde_json::to_value(perms_of(u.perms)).unwrap() }})).collect();
-        let tokens: Vec<Value> = self.m.tokens.iter().map(|(n, (_, e))| json!({"name": n, "expires": *e != 0})).collect();
+        let tokens: Vec<Value> = self
+            .m
+            .toks
+            .iter()
+            .filter(|t| t.owner == 1 && !t.deleted && self.token_unexpired(t) == Some(true))
+            .map(|t| (t.name.clone(), t.expiry_s != 0))
+            .collect::<BTreeSet<_>>()
+            .into_iter()
+            .map(|(n, e)| json!({"name": n, "expires": e}))
+            .collect();
         json!({"streams": streams, "users": users, "root_tokens": tokens})
     }
 
@@ -1032,7 +1378,14 @@ impl AdminWorld {
             users.push(json!({"id": ud.id, "name": ud.username, "active": ud.status == UserStatus::Active, "permissions": perms}));
         }
         let toks = timed("get_tokens", c.get_personal_access_tokens()).await?.map_err(|e| inc("get_personal_access_tokens", e))?;
-        let mut tokens: Vec<Value> = toks.iter().map(|t| json!({"name": t.name, "expires": t.expiry_at.is_some()})).collect();
+        let now_us = iggy::utils::timestamp::IggyTimestamp::now().as_micros();
+        // tokens whose expiry has passed (or is within 2 s) are left out: whether the cleaner has removed them yet is not part of the catalogue
+        let near: Vec<String> = self.m.toks.iter().filter(|t| t.owner == 1 && !t.deleted && self.token_unexpired(t).is_none()).map(|t| t.name.clone()).collect();
+        let mut tokens: Vec<Value> = toks
+            .iter()
+            .filter(|t| t.expiry_at.map(|e| e.as_micros() > now_us).unwrap_or(true) && !near.contains(&t.name))
+            .map(|t| json!({"name": t.name, "expires": t.expiry_at.is_some()}))
+            .collect();
         tokens.sort_by_key(|t| t["name"].as_str().unwrap().to_string());
         self.eval("C06:lookup-by-name-agrees");
         if let Some(mm) = by_name_mismatch {
@@ -1147,14 +1500,15 @@ impl AdminWorld {
                 }
             }
         }
-        let toks: Vec<(String, String)> = self.m.tokens.iter().map(|(n, (raw, _))| (n.clone(), raw.clone())).collect();
-        for (name, raw) in toks {
+        let toks: Vec<TokRec> = self.m.toks.clone();
+        for t in toks {
+            let Some(expect) = self.token_state(&t) else { continue };
             let c = RawClient::connect(addr).await.map_err(Stop::Inconclusive)?;
-            let r = timed("login_pat", c.login_with_personal_access_token(&raw)).await?;
-            self.eval("C10:login-iff-valid");
-            if r.is_err() {
-                let w = json!({"why": why, "token": name, "login": format!("refused: {}", r.unwrap_err())});
-                return Err(viol("C10", "login-iff-valid", &format!("token/{why}"), self.witness(w)));
+            let r = timed("login_pat", c.login_with_personal_access_token(&t.raw)).await?;
+            self.eval("C10:token-iff-valid");
+            if r.is_ok() != expect {
+                let w = json!({"why": why, "token": t.name, "owner": t.owner, "expected_valid": expect, "login": if r.is_ok() { "accepted".to_string() } else { format!("refused: {}", r.unwrap_err()) }});
+                return Err(viol("C10", "token-iff-valid", &format!("{}/{why}", if expect { "refused" } else { "accepted" }), self.witness(w)));
             }
         }
         Ok(())
@@ -1274,7 +1628,7 @@ fn pick_user_ref(w: &AdminWorld, rng: &mut Rng) -> Ref {
 }
 
 /// weights: stream ops, topic ops, partition ops, group ops, membership, user ops, token ops, send, restart, dump
-pub fn gen_admin_op(w: &AdminWorld, rng: &mut Rng, weights: &[u32; 10]) -> AOp {
+pub fn gen_admin_op(w: &AdminWorld, rng: &mut Rng, weights: &[u32; 13]) -> AOp {
     let seg = w.cfg.segment_size;
     let opt_id = |rng: &mut Rng| if rng.chance(1, 2) { None } else { Some(rng.range(1, 6) as u32) };
     match rng.weighted(weights) {
@@ -1337,7 +1691,16 @@ pub fn gen_admin_op(w: &AdminWorld, rng: &mut Rng, weights: &[u32; 10]) -> AOp {
         }
         5 => match rng.below(10) {
             0..=3 => AOp::CreateUser { name: rng.pick(&USER_NAMES).to_string(), active: rng.chance(3, 4), perms: rng.below(5) as u8 },
-            4 => AOp::UpdateUser { u: pick_user_ref(w, rng), name: if rng.chance(1, 2) { Some(rng.pick(&USER_NAMES).to_string()) } else { None }, active: if rng.chance(1, 2) { Some(rng.chance(1, 2)) } else { None } },
+            4 => {
+                let u = pick_user_ref(w, rng);
+                let is_root = matches!(&u, Ref::Id(1)) || matches!(&u, Ref::Name(n) if n == "iggy");
+                // the root user is never renamed or deactivated by the workload (the harness logs in as root)
+                if is_root {
+                    AOp::Dump
+                } else {
+                    AOp::UpdateUser { u, name: if rng.chance(1, 2) { Some(rng.pick(&USER_NAMES).to_string()) } else { None }, active: if rng.chance(1, 2) { Some(rng.chance(1, 2)) } else { None } }
+                }
+            }
             5..=6 => AOp::DeleteUser { u: pick_user_ref(w, rng) },
             7 => AOp::UpdatePermissions { u: pick_user_ref(w, rng), perms: rng.below(5) as u8 },
             _ => AOp::ChangePassword { u: pick_user_ref(w, rng), correct: rng.chance(2, 3) },
@@ -1355,6 +1718,28 @@ pub fn gen_admin_op(w: &AdminWorld, rng: &mut Rng, weights: &[u32; 10]) -> AOp {
             AOp::Send { s, t, part: rng.range(1, 3) as u32, n: rng.range(1, 4) as u32 }
         }
         8 => AOp::Restart,
-        _ => AOp::Dump,
+        9 => AOp::Dump,
+        10 => {
+            // names of users that exist or existed
+            let name = rng.pick(&["iggy", USER_NAMES[0], USER_NAMES[1], USER_NAMES[2], USER_NAMES[3], USER_NAMES[4]]).to_string();
+            match rng.below(10) {
+                0..=4 => AOp::TryLogin { name, cand: rng.below(4) as u8, http: rng.chance(1, 4) },
+                5..=6 => AOp::TryToken { idx: rng.below(64) as usize },
+                7..=8 => AOp::UserToken { u: pick_user_ref(w, rng), name: rng.pick(&TOKEN_NAMES).to_string(), expiry_s: *rng.pick(&[0u64, 60, 3600, 86400]) },
+                _ => AOp::DeleteUserToken { u: pick_user_ref(w, rng), name: rng.pick(&TOKEN_NAMES).to_string() },
+            }
+        }
+        11 => {
+            if rng.chance(2, 3) {
+                AOp::AdvanceClock { s: *rng.pick(&[30u64, 45, 1800, 2400, 50_000, 90_000]) }
+            } else {
+                AOp::CleanTokens
+            }
+        }
+        _ => match rng.below(3) {
+            0 => AOp::ScanSecrets,
+            1 => AOp::LogoutCheck,
+            _ => AOp::HttpAuthCheck,
+        },
     }
 }
